@@ -15,7 +15,19 @@
 #include <kernel/chainparams.h>
 #undef protected
 #include <chainparams.h>
+#include <deque>
+#include <list>
+#include <map>
+#include <thread>
+#include <condition_variable>
+#include <unordered_set>
+#include <queue>
+#include <functional>
+#include <optional>
+#include <atomic>
+#define private public
 #include <net.h>
+#undef private
 #include <protocol.h>
 #include <random.h>
 #include <logging.h>
@@ -24,6 +36,15 @@
 #include <util/time.h>
 #include <support/cleanse.h>
 #include <chrono>
+
+// protocol.cpp is compiled inside this TU without optimisation: at -O1 clang rewrites the zero-padding loop of IsMessageTypeValid with an end pointer
+// computed through integer address arithmetic (p + (uintptr)this + 16 - (uintptr)p), which symex cannot fold, so the loop bound becomes symbolic
+#pragma clang optimize off
+#include <protocol.cpp>
+#pragma clang optimize on
+
+// std::allocator<char> constructor/destructor: out of line (libstdc++.so) when called from unoptimised code; empty
+extern "C" { void verif_alloc_char_ctor(void*) __asm__("_ZNSaIcEC2Ev"); void verif_alloc_char_ctor(void*) {} void verif_alloc_char_dtor(void*) __asm__("_ZNSaIcED2Ev"); void verif_alloc_char_dtor(void*) {} }
 
 // ---- hash model (recording, deterministic): digest(x)[i] = x[i] ^ K[i] ^ g(len, i), x zero-padded to 32 bytes. Same bytes -> same digest whatever the
 // fragmentation of Write(); injective on inputs of equal length <= 32. The transport's checksum is the first 4 bytes of digest(digest(payload)).
@@ -68,6 +89,20 @@ int pthread_mutex_unlock(pthread_mutex_t*) noexcept { return 0; }
 
 #define MAXW 32   // 24 header + <= 4 payload
 
+#ifdef VERIF_PROBE
+template <int ID> __attribute__((noinline)) static void probe(size_t x) { for (size_t k = 0; k < x; k++) { __asm__ volatile(""); } }
+#define PROBE(id, x) probe<id>((size_t)(x))
+#else
+#define PROBE(id, x)
+#endif
+// assert-then-pin: the constructor took the magic from Params() (a 760-byte phantom, beyond CBMC's field-sensitivity limit, so its bytes are not constant-propagated);
+// after asserting that it equals the harness value the same value is stored back as a constant
+static void pin_magic(V1Transport& t, const uint8_t* magic)
+{
+    bool same = true; for (int i = 0; i < 4; i++) if (t.m_magic_bytes[i] != magic[i]) same = false;
+    VASSERT(same, "V1Transport takes the network magic from the chain parameters");
+    for (int i = 0; i < 4; i++) const_cast<uint8_t&>(t.m_magic_bytes[i]) = magic[i];
+}
 struct RecvResult { int delivered; int rejected; bool disconnect; bool incomplete; CNetMessage* msg; };
 
 // the caller contract of Transport on the receive side: CNode::ReceiveMsgBytes
@@ -77,7 +112,9 @@ static void feed(V1Transport& r, const uint8_t* p, size_t n, RecvResult& res)
     int guard = 0;
     while (bytes.size() > 0 && !res.disconnect) {
         VASSERT(++guard <= 4, "receive loop makes progress");
+        PROBE(10, bytes.size()); PROBE(11, r.nHdrPos); PROBE(12, n); PROBE(13, r.hdrbuf.size());
         if (!r.ReceivedBytes(bytes)) { res.disconnect = true; break; }
+        PROBE(1, bytes.size()); PROBE(2, r.nHdrPos); PROBE(3, r.hdrbuf.size()); PROBE(4, r.hdr.nMessageSize); PROBE(5, r.vRecv.size()); PROBE(6, r.nDataPos); PROBE(7, r.in_data);
         if (r.ReceivedMessageComplete()) {
             bool reject = false;
             CNetMessage* m = new CNetMessage(r.GetReceivedMessage(NodeClock::time_point{}, reject));   // never destroyed
@@ -93,12 +130,16 @@ static void feed(V1Transport& r, const uint8_t* p, size_t n, RecvResult& res)
 // message types (concrete per entry: a symbolic character makes strnlen/std::string lengths symbolic on the receiver; magic, payload and checksum stay symbolic)
 static constexpr const char* TYPES[] = {"", "tx", "verack", "filterclear", "abcdefghijkl", "bad\x7f", "sp ace~", "hi\x01x"};
 static constexpr int cstrlen(const char* s) { int n = 0; while (s[n]) n++; return n; }
-template <int TYPEID, int PLEN, int CUT_LO, int CUT_HI, int TAMPER, long NEWLEN>
+static constexpr bool printable(const char* s) { for (int i = 0; s[i]; i++) if (s[i] < 0x20 || s[i] > 0x7E) return false; return true; }
+// MSYM: network magic symbolic (sender-only entries) or the concrete main-network value: the receiver compares the magic for equality, and a symbolic outcome makes symex carry
+// both the reset and the normal receiver state through the rest of the run (symbolic buffer sizes)
+// XMASK: concrete xor mask for the altered byte (0: symbolic non-zero mask). The magic is compared for equality inside ReceivedBytes; with a symbolic mask symex carries both outcomes
+template <int TYPEID, int PLEN, int CUT_LO, int CUT_HI, int TAMPER, long NEWLEN, int MSYM, int XMASK>
 static void h_v1_t()
 {
     constexpr int TLEN = cstrlen(TYPES[TYPEID]);
     constexpr int WLEN = 24 + PLEN;
-    uint8_t magic[4]; for (int i = 0; i < 4; i++) magic[i] = nondet_u8();
+    uint8_t magic[4] = {0xf9, 0xbe, 0xb4, 0xd9}; if constexpr (MSYM != 0) { for (int i = 0; i < 4; i++) magic[i] = nondet_u8(); }
     CChainParams& cp = *reinterpret_cast<CChainParams*>(g_params_storage);
     for (int i = 0; i < 4; i++) cp.pchMessageStart[i] = magic[i];
 
@@ -110,9 +151,10 @@ static void h_v1_t()
     for (int i = 0; i < TLEN; i++) if (type[i] < 0x20 || type[i] > 0x7E) type_valid = false;
     type[TLEN] = 0;
     for (int i = 0; i < PLEN; i++) payload[i] = nondet_u8();
-    V1Transport& s = *new V1Transport(0);
+    V1Transport& s = *new V1Transport(0); pin_magic(s, magic);
     // (no std::string::assign(const char*): its aliasing test compares pointers into different objects, which symex cannot decide)
-    CSerializedNetMsg msg; for (int i = 0; i < TLEN; i++) msg.m_type.push_back(type[i]);
+    // heap-allocated string buffer: libstdc++'s in-object buffer is a union that LLVM types as {i64, [8 x i8]}; CBMC does not constant-propagate byte accesses to an i64
+    CSerializedNetMsg msg; msg.m_type.reserve(32); for (int i = 0; i < TLEN; i++) msg.m_type.push_back(type[i]);
     msg.data.resize(PLEN); for (int i = 0; i < PLEN; i++) msg.data[i] = payload[i];
     VASSERT(s.SetMessageToSend(msg), "SetMessageToSend accepts a message when idle");
     { CSerializedNetMsg second; second.m_type.resize(4, 'p'); VASSERT(!s.SetMessageToSend(second), "no second message while one is being sent"); }
@@ -144,15 +186,16 @@ static void h_v1_t()
             static_assert(((nl ^ (uint32_t)PLEN) & ~(0xffu << (8 * (TAMPER - 16)))) == 0 && nl != (uint32_t)PLEN, "NEWLEN differs from PLEN in exactly the tampered byte");
             wire[TAMPER] = (uint8_t)(nl >> (8 * (TAMPER - 16)));
         } else {
-            const uint8_t mask = nondet_u8(); VASSUME(mask != 0);
+            uint8_t mask = (uint8_t)XMASK; if constexpr (XMASK == 0) { mask = nondet_u8(); VASSUME(mask != 0); }
             wire[TAMPER] ^= mask;
         }
     }
 
+    PROBE(20, wire[16]); PROBE(21, wire[4] & 15); PROBE(22, wire[0] & 15); PROBE(23, wire[17] + 1); PROBE(24, wire[3] & 15);
     // ---- receiver, for every cut point of the range
     bool all_ok = true;
     for (int cut = CUT_LO; cut <= CUT_HI; cut++) {
-        V1Transport& r = *new V1Transport(1);
+        V1Transport& r = *new V1Transport(1); pin_magic(r, magic);
         RecvResult res{0, 0, false, false, nullptr};
         if (cut > 0) feed(r, wire, (size_t)cut, res);
         if (!res.disconnect) feed(r, wire + cut, (size_t)(WLEN - cut), res);
@@ -189,15 +232,21 @@ static void h_v1_t()
                 VASSERT((res.delivered >= 1) == (match && type_valid), "a message is delivered only if its payload matches the checksum on the wire");
             }
         } else {
-            // altered type byte: v1 does not authenticate the type; the message is delivered (under the altered type) iff the altered type is well-formed
+            // altered type byte: v1 does not authenticate the type; framing and payload are unaffected and the message is delivered (under the altered type) iff the
+            // altered 12-byte field is well-formed: printable ASCII up to the first zero byte, only zero bytes after it
             VASSERT(!res.disconnect && res.delivered + res.rejected == 1, "altered type byte: framing unaffected");
+            bool wf = true, seen0 = false; int tl = 0;
+            for (int i = 0; i < 12; i++) { const uint8_t c = wire[4 + i]; if (c == 0) seen0 = true; else if (seen0 || c < 0x20 || c > 0x7E) wf = false; if (!seen0) tl = i + 1; }
+            VASSERT((res.delivered == 1) == wf, "altered type byte: delivered iff the altered type field is well-formed");
             if (res.delivered == 1) {
-                bool same_payload = res.msg->m_recv.size() == (size_t)PLEN;
-                for (int i = 0; i < PLEN; i++) if (same_payload && (uint8_t)res.msg->m_recv[i] != payload[i]) same_payload = false;
-                VASSERT(same_payload, "altered type byte: payload unchanged");
+                bool same = res.msg->m_recv.size() == (size_t)PLEN && res.msg->m_type.size() == (size_t)tl;
+                for (int i = 0; i < PLEN; i++) if (same && (uint8_t)res.msg->m_recv[i] != payload[i]) same = false;
+                for (int i = 0; i < 12; i++) if (same && i < tl && (uint8_t)res.msg->m_type[i] != wire[4 + i]) same = false;
+                VASSERT(same, "altered type byte: payload unchanged, type as on the wire");
             }
         }
-        if constexpr (TAMPER < 0) { if (type_valid) VWITNESS(res.delivered == 1, "delivered"); else VWITNESS(res.rejected == 1, "invalid_type_rejected"); }
+        if constexpr (TAMPER < 0 && printable(TYPES[TYPEID])) VWITNESS(res.delivered == 1, "delivered");
+        if constexpr (TAMPER < 0 && !printable(TYPES[TYPEID])) VWITNESS(res.rejected == 1, "invalid_type_rejected");
     }
     VASSERT(all_ok, "receiver yields exactly the type and payload that were sent");
     VREACH("end");
